@@ -107,16 +107,16 @@ func (ps *ProcessSet) StartAll(ctx context.Context) error {
 		// over (and a catch event may already be listening, a throw event may
 		// already have fired) before a subscription made afterwards exists, and
 		// the set would then wait for its cease flow trace forever.
+		// (The subscription must be read from the start as well, or the
+		// process' tracer blocks once the subscription's buffer is full.)
 		traces := process.Tracer().Subscribe()
+		ps.wg.Add(1)
+		go ps.tracerProcess(ctx, process, traces, &ps.wg)
+		verifhook.Point("pset.afterstart")
 		err := process.StartAll(ctx)
 		if err != nil {
-			process.Tracer().Unsubscribe(traces)
 			return fmt.Errorf("start process %s: %w", process.Id().String(), err)
 		}
-
-		ps.wg.Add(1)
-		verifhook.Point("pset.afterstart")
-		go ps.tracerProcess(ctx, process, traces, &ps.wg)
 	}
 
 	return nil
@@ -163,14 +163,13 @@ func (ps *ProcessSet) run(ctx context.Context) {
 						}
 
 						traces := process.Tracer().Subscribe()
+						ps.wg.Add(1)
+						go ps.tracerProcess(ctx, process, traces, &ps.wg)
 						err = process.StartWith(ctx, startFlowNode)
 						if err != nil {
-							process.Tracer().Unsubscribe(traces)
 							ps.tracer.Send(ErrorTrace{Error: err})
 							continue
 						}
-						ps.wg.Add(1)
-						go ps.tracerProcess(ctx, process, traces, &ps.wg)
 					}
 					cancel, found := ps.triggerCatch(string(sourceRef.TargetRefField))
 					if found {
